@@ -202,10 +202,14 @@ func ruleC19R3(c *Ctx) {
 			if half {
 				c.Check(okCmp, fmt.Sprintf("eligibility #%d in %s is bounded by MaxSegmentSize/2", n, FuncName(fn)), c.Pos(in.Pos()), "append behind LiveSize < MaxSegmentSize/2", "eligibility is not decided by an upper-bound comparison with MaxSegmentSize/2")
 			} else {
-				running := b != nil && b.Op != token.QUO && dependsOn(b.X, func(y ssa.Value) bool {
-					_, isPhi := y.(*ssa.Phi)
-					return isPhi
-				})
+				running := false
+				if b != nil {
+					if sum, ok := b.X.(*ssa.BinOp); ok && sum.Op == token.ADD {
+						_, p1 := sum.X.(*ssa.Phi)
+						_, p2 := sum.Y.(*ssa.Phi)
+						running = p1 || p2
+					}
+				}
 				c.Check(okCmp && running, fmt.Sprintf("roster membership #%d in %s is bounded by MaxSegmentSize", n, FuncName(fn)), c.Pos(in.Pos()), "append behind runningSize + LiveSize < MaxSegmentSize", "a segment joins a roster without an upper-bound test of the running roster size against MaxSegmentSize")
 			}
 		})
